@@ -43,13 +43,19 @@ func ruleDistributor(w *World, r *Run) {
 	d := recvParam(fnD)
 	ctx := paramN(fnD, 0)
 	df := func(n string) *Term {
-		return fieldByType(d, map[string]string{"witness": "rest.Witness", "baseURL": "string", "client": "*http.Client", "witSigV": "note.Verifier", "logs": "[]config.Log"}[n])
+		return fieldByTypeCtor(w, d, map[string]string{"witness": "rest.Witness", "baseURL": "string", "client": "*http.Client", "witSigV": "note.Verifier", "logs": "[]config.Log"}[n])
 	}
 	nOK := 0
 	names := counterNames(w, newRun("x", "quick", 0), pRest, "C15.d")
 	for _, s := range sums {
 		gl := calls(s, cRestGetLatest)
-		if len(gl) == 0 && len(calls(s, cInc)) == 0 {
+		nAttemptIncs := 0
+		for _, ie := range calls(s, cInc) {
+			if m, ok := names[ie.Recv.key]; !ok || m == "distribute_rest_attempt" || m == "distribute_rest_success" {
+				nAttemptIncs++
+			}
+		}
+		if len(gl) == 0 && nAttemptIncs == 0 {
 			continue // no log configured: nothing attempted
 		}
 		if len(gl) > 1 {
@@ -154,6 +160,11 @@ func ruleDistributor(w *World, r *Run) {
 		for _, ie := range calls(s, cInc) {
 			if ie.Recv != nil {
 				if m, ok := names[ie.Recv.key]; ok {
+					// the overall result is read from these two; counters under other metric names (failure reasons, cycles)
+					// are the operator's business and carry their own labels
+					if m != "distribute_rest_attempt" && m != "distribute_rest_success" {
+						continue
+					}
 					cnt[m]++
 				} else {
 					cnt["unknown-counter:"+short(ie.Recv.String())]++
